@@ -984,3 +984,87 @@ Proof.
   rewrite Hnil, app_nil_r.
   destruct (v ++ pad (N.to_nat size) (str_of_Z (counter_value reverse base (i + 1) n))); reflexivity.
 Qed.
+
+(* ---------------------------------------------------------------- names, text and attribute values
+   are the concatenation of their tokens' texts (so every `$` run in them is replaced by the counter
+   of numbering_in_copy) *)
+Lemma name_str_flat env reps : forall toks,
+  clean_toks toks = true -> name_str env reps toks = flat_map (tok_str env reps) toks.
+Proof.
+  induction toks as [|t r IH]; intros H; [reflexivity|].
+  rewrite name_str_cons by exact H. cbn [flat_map]. f_equal. apply IH.
+  cbn [clean_toks forallb] in H. apply andb_prop in H. apply H.
+Qed.
+
+(* a token that stays a token in a value: `${1}` / `${1:placeholder}` *)
+Definition is_tabstop (t : token) : bool :=
+  match tk t with TField _ (Some _) => true | _ => false end.
+
+Lemma value_acc_glue env reps : forall toks a,
+  clean_toks toks = true -> forallb (fun t => negb (is_tabstop t)) toks = true ->
+  value_acc env reps toks (Some a) = [VStr (a ++ flat_map (tok_str env reps) toks)].
+Proof.
+  induction toks as [|t r IH]; intros a Hc Hf.
+  - cbn [flat_map]. rewrite app_nil_r. reflexivity.
+  - cbn [clean_toks forallb] in Hc, Hf. apply andb_prop in Hc. destruct Hc as [Ht Hr].
+    apply andb_prop in Hf. destruct Hf as [Hft Hfr]. apply negb_true_iff in Hft.
+    unfold value_acc. cbn [stringify_value_acc].
+    rewrite (stringify_clean env t (st_of reps) Ht). cbn [st_of cs_repeaters].
+    assert (Hgo : stringify_value_acc env r (Some (a ++ tok_str env reps t)) (st_of reps) =
+                  Ok (value_acc env reps r (Some (a ++ tok_str env reps t)), st_of reps)).
+    { rewrite (stringify_value_acc_clean env r _ (st_of reps) Hr). reflexivity. }
+    unfold is_tabstop in Hft.
+    destruct (tk t) as [v|v|s|op b|o|c v i|size rev base par| |name idx] eqn:Ek;
+      try (rewrite Hgo; rewrite IH by assumption; cbn [flat_map]; rewrite app_assoc; reflexivity).
+    destruct idx as [i|]; [discriminate|].
+    rewrite Hgo; rewrite IH by assumption; cbn [flat_map]; rewrite app_assoc; reflexivity.
+Qed.
+
+Theorem value_toks_flat env reps t r :
+  clean_toks (t :: r) = true -> forallb (fun t => negb (is_tabstop t)) (t :: r) = true ->
+  value_toks env reps (t :: r) = [VStr (flat_map (tok_str env reps) (t :: r))].
+Proof.
+  intros Hc Hf. cbn [clean_toks forallb] in Hc, Hf. apply andb_prop in Hc. destruct Hc as [Ht Hr].
+  apply andb_prop in Hf. destruct Hf as [Hft Hfr]. apply negb_true_iff in Hft.
+  unfold value_toks, value_acc. cbn [stringify_value_acc].
+  rewrite (stringify_clean env t (st_of reps) Ht). cbn [st_of cs_repeaters].
+  assert (Hgo : forall a, stringify_value_acc env r a (st_of reps) = Ok (value_acc env reps r a, st_of reps)).
+  { intros a. rewrite (stringify_value_acc_clean env r _ (st_of reps) Hr). reflexivity. }
+  unfold is_tabstop in Hft.
+  destruct (tk t) as [v|v|s|op b|o|c v i|size rev base par| |name idx] eqn:Ek;
+    try (rewrite Hgo; rewrite value_acc_glue by assumption; reflexivity).
+  destruct idx as [i|]; [discriminate|].
+  rewrite Hgo; rewrite value_acc_glue by assumption; reflexivity.
+Qed.
+
+(* an attribute written `name=value` without quotes or braces: name and value are the glued texts *)
+Theorem attr_of_plain env reps nt nr vt vr expr mult :
+  clean_toks (nt :: nr) = true -> clean_toks (vt :: vr) = true ->
+  forallb (fun t => negb (is_tabstop t)) (vt :: vr) = true ->
+  is_quote_tok vt None = false -> is_bracket vt (Some BExpr) (Some true) = false ->
+  aa_value (attr_of env reps (mkTAttr (Some (nt :: nr)) (Some (vt :: vr)) expr mult)) =
+  Some [VStr (flat_map (tok_str env reps) (vt :: vr))].
+Proof.
+  intros Hn Hv Hf Hq Hb. unfold attr_of, convert_attribute. cbn [ta_name ta_value nonempty ta_expression ta_multiple].
+  rewrite (stringify_name_clean env (nt :: nr) (st_of reps) Hn). cbn [bind st_of cs_repeaters].
+  match goal with |- context [match ?X with pair _ _ => _ end] => destruct X as [[name boolean] implied] end.
+  assert (Hsel : (match tk vt with
+                  | TQuote single =>
+                      (match last_opt vr with
+                       | Some l => if is_quote_tok l None then drop_last vr else vr
+                       | None => vr
+                       end, if single then VSingle else VDouble)
+                  | TBracket true BExpr =>
+                      (match last_opt vr with
+                       | Some l => if is_bracket l (Some BExpr) (Some false) then drop_last vr else vr
+                       | None => vr
+                       end, VExpr)
+                  | _ => (vt :: vr, if expr then VExpr else VRaw)
+                  end) = (vt :: vr, if expr then VExpr else VRaw)).
+  { unfold is_quote_tok, is_bracket in Hq, Hb.
+    destruct (tk vt) as [v|v|s|op b|o|c v i|size rev base par| |name' idx]; try reflexivity; try discriminate.
+    destruct op; [|reflexivity]. destruct b; try reflexivity. discriminate. }
+  rewrite Hsel.
+  rewrite (stringify_value_clean env (vt :: vr) _ Hv). cbn [bind aa_value st_of cs_repeaters].
+  rewrite (value_toks_flat env reps vt vr Hv Hf). reflexivity.
+Qed.
